@@ -215,6 +215,11 @@ func (h *handler) serve(clientCtx context.Context) error {
 	unaryRpcCtx, unaryRpcCtxCancel := context.WithCancel(ctx)
 	defer unaryRpcCtxCancel()
 
+	// Unary handlers run under the caller's context (it carries the stats
+	// tags), cancelled when this connection is done.
+	unaryClientCtx, unaryClientCtxCancel := context.WithCancel(clientCtx)
+	defer unaryClientCtxCancel()
+
 	const numRpcWorkers = 8
 
 	for i := 0; i < numRpcWorkers; i++ {
@@ -222,7 +227,7 @@ func (h *handler) serve(clientCtx context.Context) error {
 			for {
 				select {
 				case args := <-h.unaryRpcChan:
-					resp := h.processUnaryRpc(clientCtx, args.info, args.md, args.rpc)
+					resp := h.processUnaryRpc(unaryClientCtx, args.info, args.md, args.rpc)
 					select {
 					case h.writeChan <- resp:
 					case <-h.ctx.Done():
